@@ -332,9 +332,10 @@ def parseQuery(query):
         if queryPart:
             if '=' in queryPart:
                 key, val = queryPart.split('=', 1)
-                val = unquote(val)
+                key = unquote_plus(key)
+                val = unquote_plus(val)
             else:
-                key = queryPart
+                key = unquote_plus(queryPart)
                 val = u'true'
             qargs[key] = val
     return qargs
@@ -364,13 +365,14 @@ def updateQargsQuery(qargs=None, query=u'',):
             if queryPart:
                 if '=' in queryPart:
                     key, val = queryPart.split('=', 1)
+                    key = unquote_plus(key)
                     val = unquote_plus(val)
                 else:
-                    key = queryPart
+                    key = unquote_plus(queryPart)
                     val = u'true'
                 qargs[key] = val
 
-    qargParts = [u"{0}={1}".format(key, quote_plus(str(val)))
+    qargParts = [u"{0}={1}".format(quote_plus(str(key)), quote_plus(str(val)))
                                    for key, val in qargs.items()]
     query = '&'.join(qargParts)  # only use ampersand since semicolon obsolete
     return (qargs, query)
